@@ -1,5 +1,5 @@
 #!/bin/bash
-# usage: tools/vp_thorough.sh <workers> <ID>...   - validates thorough tiers one after the other in a vp background run (own /verif and /repo snapshots)
+# usage: [BUDGET=<s per unit>] tools/vp_thorough.sh <workers> <ID>...   - validates thorough tiers one after the other in a vp background run (own /verif and /repo snapshots)
 w=$1; shift
 ids="$*"
-vp run --with-repo -- bash -c 'export GOFLAGS=-mod=mod GOPROXY=off GOSUMDB=off GOTOOLCHAIN=local VERIF_ROOT=$PWD VERIF_REPO=$VP_RUN_REPO; cd engine && go build -o ../bin/gosymex . && cd .. && for id in '"$ids"'; do s=$(date +%s); bin/gosymex check $id --tier thorough --workers '"$w"' --no-evidence > out.$id.log 2>&1; echo "$id exit=$? $(( $(date +%s) - s ))s"; grep "^VIOLATION\|^INCONCLUSIVE\|^ENGINE-ERROR\|^PARTIAL\|^KNOWN\|^OK\|^\[" out.$id.log | cut -c1-300; done'
+vp run --with-repo -- bash -c 'export GOFLAGS=-mod=mod GOPROXY=off GOSUMDB=off GOTOOLCHAIN=local VERIF_ROOT=$PWD VERIF_REPO=$VP_RUN_REPO VERIF_THOROUGH_BUDGET_S='"${BUDGET:-0}"'; cd engine && go build -o ../bin/gosymex . && cd .. && for id in '"$ids"'; do s=$(date +%s); bin/gosymex check $id --tier thorough --workers '"$w"' --no-evidence > out.$id.log 2>&1; echo "$id exit=$? $(( $(date +%s) - s ))s"; grep "^VIOLATION\|^INCONCLUSIVE\|^ENGINE-ERROR\|^PARTIAL\|^KNOWN\|^OK\|^\[" out.$id.log | cut -c1-300; done'
